@@ -20,7 +20,7 @@ def expr_tr(util, env):
     return Tr(mod, 'frag', dict(params=env, toplevel=True))
 
 
-def generate(solver_tree, util, trees=None):
+def generate(solver_tree, util, trees=None, consts=None):
     trees = trees or {'solver': solver_tree}
     solve = find_func(solver_tree, 'solve')
     out = [HEADER]
@@ -71,6 +71,8 @@ def generate(solver_tree, util, trees=None):
     if 'trust_region' in trees:
         out.append(gen_kernels(trees, util))
         out.append(gen_coord_init(trees, util))
+    if consts is not None:
+        out.append(gen_x0_block(solver_tree, util, consts))
     out.append('End Gen.')
     out.append(idx)
     return '\n'.join(out)
@@ -277,3 +279,76 @@ def gen_coord_init(trees, util):
     if evals != ['self.model.as_absolute_coordinates(xpts_added[k, :])']:
         fail(seq[0], 'the coordinate loop does not evaluate as_absolute_coordinates(xpts_added[k, :]) (got %r)' % evals)
     return '\n'.join(out) + '\n'
+
+
+# ------------------------------------------------------------------------------------------------ x0 sampling block (C02)
+X0_ORACLE = dict(name='eval_least_squares_with_regularisation', ans='ans',
+                 argorder=['objfun', 'x', 'h', 'argsf', 'argsh', 'verbose', 'eval_num', 'pt_num', 'full_x_thresh', 'check_for_overflow'],
+                 log=[('x', 'vec'), ('eval_num', 'Z'), ('pt_num', 'Z')],
+                 require={'objfun': 'objfun', 'h': 'h', 'argsf': 'argsf', 'argsh': 'argsh'})
+X0_DROP = {'m', 'rvec_list', 'obj_list'}       # names that only hold residual storage; every other statement is kept
+
+
+def x0_block_source(solver_tree):
+    """the counter slice of `if r0_avg_old is None:` in solve_main, up to the end of the sampling loop, as the source of a
+    function x0_block(nf_so_far, nx_so_far, maxfun, number_of_samples, x0, scaling_changes) -> (nf, nx, num_samples_run, exit_info)"""
+    fn = find_func(solver_tree, 'solve_main')
+    ifs = [s for s in fn.body if isinstance(s, ast.If)]
+    if not ifs or ast.unparse(ifs[0].test) != 'r0_avg_old is None':
+        fail(fn, 'solve_main does not start with `if r0_avg_old is None:`')
+    body = ifs[0].body
+    loops = [i for i, s in enumerate(body) if isinstance(s, ast.For)]
+    if len(loops) != 1:
+        fail(ifs[0], 'expected exactly one sampling loop in the x0 block')
+    k = [0]
+
+    def base(t):
+        while isinstance(t, (ast.Subscript, ast.Attribute)):
+            t = t.value
+        return t.id if isinstance(t, ast.Name) else None
+
+    def is_oracle(v):
+        return isinstance(v, ast.Call) and isinstance(v.func, ast.Name) and v.func.id == X0_ORACLE['name']
+
+    def rewrite(s):
+        if isinstance(s, ast.Expr) and isinstance(s.value, ast.Constant):
+            return []
+        if isinstance(s, ast.Assign) and len(s.targets) == 1:
+            tg = s.targets[0]
+            if is_oracle(s.value):
+                k[0] += 1
+                new = ast.parse('r_%d, o_%d = 0' % (k[0], k[0])).body[0]
+                new.value = s.value
+                return [ast.copy_location(new, s)]
+            names = [base(e) for e in (tg.elts if isinstance(tg, ast.Tuple) else [tg])]
+            if all(n in X0_DROP for n in names):
+                return []
+            if ast.unparse(tg) == 'number_of_samples':
+                if ast.unparse(s.value) != 'max(nsamples(rhobeg, rhobeg, 0, nruns_so_far), 1)':
+                    fail(s, 'number_of_samples of the x0 block is not max(nsamples(...), 1)')
+                return []
+            return [s]
+        if isinstance(s, ast.For):
+            nb = []
+            for b in s.body:
+                nb += rewrite(b)
+            return [ast.copy_location(ast.For(target=s.target, iter=s.iter, body=nb, orelse=[]), s)]
+        return [s]
+    out = []
+    for s in body[:loops[0] + 1]:
+        out += rewrite(s)
+    src = 'def x0_block(nf_so_far, nx_so_far, maxfun, number_of_samples, x0, scaling_changes):\n'
+    for s in out:
+        src += '\n'.join('    ' + l for l in ast.unparse(s).split('\n')) + '\n'
+    src += '    return (nf, nx, num_samples_run, exit_info)\n'
+    return src
+
+
+def gen_x0_block(solver_tree, util, consts):
+    from .py2coq import translate_function
+    src = x0_block_source(solver_tree)
+    sp = dict(toplevel=True, params={'nf_so_far': 'Z', 'nx_so_far': 'Z', 'maxfun': 'Z', 'number_of_samples': 'Z', 'x0': 'vec', 'scaling_changes': 'opt:scal'},
+              ret='tup:Z|Z|Z|opt:exit', oracle=X0_ORACLE, locals={'exit_info': 'opt:exit'})
+    mod = Module('solver', ast.parse(src), funcs={'x0_block': sp}, others={'util': util})
+    mod.consts = dict(consts)
+    return '(* counter slice of the x0 sampling block of solve_main:\n' + src.replace('*)', '* )') + '*)\n' + translate_function(mod, 'x0_block') + '\n'
